@@ -122,12 +122,13 @@ def _weave_states_in_region(
                 # handle accfg.setup ops:
                 if isinstance(op, accfg.SetupOp):
                     accel = op.accelerator.data
-                    if accel in state and op.in_state != state[accel]:
+                    # also drop an existing link if the current state is not known (any more) at this point
+                    if op.in_state != state.get(accel):
                         new_op = accfg.SetupOp(
                             op.values,
                             op.param_names,
                             op.accelerator,
-                            state[accel],
+                            state.get(accel),
                         )
                         rewriter.replace_op(op, new_op)
                         op = new_op
